@@ -219,6 +219,22 @@ fn run_budget(
     Ok((r, reports))
 }
 
+/// Like `run_budget`, with the hook monitor attached (what was handed on before the call returned).
+fn run_budget_monitored(
+    run: &Run,
+    entry: Entry,
+    text: &str,
+    budget: serde_saphyr::Budget,
+    anchor_cap: usize,
+) -> Result<(Out, Vec<serde_saphyr::budget::BudgetReport>, bm::MonState), String> {
+    run.eval();
+    let (o, got) = bm::options_with(budget);
+    let (r, mon) = bm::monitor(MonLimits::none(), anchor_cap, || vcore::obs::catch(|| exec(entry, text, o)));
+    let r = r?;
+    let reports = got.borrow().clone();
+    Ok((r, reports, mon))
+}
+
 /// One signature for every manifestation of "the merge-key counter is off in a
 /// document that has an alias as a direct child of a mapping".
 const SIG_MERGE_MISCOUNT: &str = "C07:merge_keys:miscounted:alias-direct-map-child";
@@ -379,7 +395,7 @@ fn check_input(run: &Run, entry: Entry, text: &str, loc: &mut Local) {
             let mut b = bm::unlimited_budget();
             bm::set_limit(&mut b, field, limit as usize);
             let cj = || json!({"kind": "input", "entry": entry.name(), "text": text, "field": field, "limit": limit, "usage": u});
-            let (out, reps) = match run_budget(run, entry, text, b.clone()) {
+            let (out, reps, mon) = match run_budget_monitored(run, entry, text, b.clone(), m.max_anchor_id) {
                 Ok(x) => x,
                 Err(p) => {
                     violation(run, &format!("C07:panic:{}", vcore::obs::panic_site(&p)), cj(), p);
@@ -387,6 +403,28 @@ fn check_input(run: &Run, entry: Entry, text: &str, loc: &mut Local) {
                 }
             };
             both += 1;
+            // "as soon as one is exceeded": whatever the outcome, nothing beyond the limit was handed on
+            // (every pumped event passed the budget first)
+            let handed_on: Option<u64> = match field {
+                "events" => Some(mon.pumps() + mon.alias_pushes),
+                "nodes" => Some(mon.nodes),
+                "max_depth" => Some(mon.max_depth),
+                "total_scalar_bytes" => Some(mon.bytes_parser + mon.bytes_replay),
+                "aliases" => Some(mon.alias_pushes),
+                _ => None,
+            };
+            if let Some(h) = handed_on {
+                if h > limit {
+                    violation(
+                        run,
+                        &format!("C07:threshold:{field}:failed-later-than-exceeded"),
+                        cj(),
+                        format!("limit {limit} on {field}, but the hook saw {h} handed on to the deserializer ({})", show(&out)),
+                    );
+                } else {
+                    loc.add("handed_on_within_limit");
+                }
+            }
             match (&out, expect_ok) {
                 (Ok(v), true) => {
                     if *v != base {
@@ -886,7 +924,7 @@ fn doc_counts(d: &bm::DocModel) -> (u64, u64, u64, u64, u64, u64, u64, u64) {
 // ------------------------------------------------------------------ generators
 
 /// All decorations of a base tree with <= 2 anchors and <= 2 aliases (>= 1 alias or anchor), plus merge-key variants.
-fn decorations(base: &Node) -> Vec<Node> {
+fn decorations(base: &Node, max_an: usize, max_al: usize) -> Vec<Node> {
     let paths = treegen::node_paths(base);
     let leaf_paths: Vec<&Vec<usize>> = paths
         .iter()
@@ -923,6 +961,9 @@ fn decorations(base: &Node) -> Vec<Node> {
     for an in &anchor_sets {
         for al in &alias_sets {
             if an.is_empty() && al.is_empty() {
+                continue;
+            }
+            if an.len() > max_an || al.len() > max_al {
                 continue;
             }
             if an.iter().any(|(p, _)| al.iter().any(|(q, _)| p == q)) {
@@ -1036,6 +1077,34 @@ fn stream_pool() -> Vec<Node> {
         Node::map(vec![(p("x"), p("1").with_anchor("a")), (p("m"), Node::fmap(vec![(p("k"), p("2"))]).with_anchor("b")), (p("t"), Node::fmap(vec![(p("q"), Node::alias("a")), (p("<<"), Node::alias("b"))]))]),
         Node::dq("long scalar value"),
         Node::seq(vec![p("a1").with_anchor("a"), p("a2").with_anchor("a"), Node::alias("a")]),
+        // inner anchor aliased while the outer one is open, then the outer one; nested three deep; re-defined
+        // names between uses; an alias inside an anchored container that is itself aliased twice
+        Node::seq(vec![Node::seq(vec![p("x").with_anchor("b"), Node::alias("b")]).with_anchor("a"), Node::alias("a")]),
+        Node::seq(vec![
+            Node::seq(vec![Node::seq(vec![Node::fseq(vec![p("y")]).with_anchor("c"), Node::alias("c")]).with_anchor("b"), Node::alias("b"), Node::alias("c")])
+                .with_anchor("a"),
+            Node::alias("a"),
+            Node::alias("b"),
+        ]),
+        Node::seq(vec![
+            p("x").with_anchor("a"),
+            Node::alias("a"),
+            Node::fseq(vec![p("y"), p("z")]).with_anchor("a"),
+            Node::alias("a"),
+            Node::fseq(vec![Node::alias("a"), p("w")]).with_anchor("b"),
+            Node::alias("b"),
+            p("v").with_anchor("b"),
+            Node::alias("b"),
+        ]),
+        Node::map(vec![
+            (p("i"), Node::fseq(vec![p("1"), p("2")]).with_anchor("a")),
+            (p("o"), Node::fseq(vec![Node::alias("a"), Node::alias("a")]).with_anchor("b")),
+            (p("u"), Node::alias("b")),
+            (p("v"), Node::alias("b")),
+        ]),
+        // the same shapes failing at the type level while the outer anchor is still being recorded
+        Node::seq(vec![Node::seq(vec![p("x").with_anchor("b"), Node::alias("b"), p(POISON)]).with_anchor("a"), Node::alias("a")]),
+        Node::seq(vec![Node::seq(vec![p(POISON).with_anchor("b"), p("y")]).with_anchor("a"), Node::alias("b"), Node::alias("a")]),
         // documents that fail at the type level (PVal rejects the poison scalar) with containers open:
         // at the root, mid-sequence, deep inside nested containers, as a value after a key, as a key,
         // after anchors / an alias / a merge key
@@ -1112,36 +1181,87 @@ fn main() {
 
     let tier = run.tier;
     let ro = RenderOpts::new();
-    let max_nodes = tier.pick(4, 5);
+    let max_nodes = 5usize;
+    // thorough additionally: every 6-node tree with <= 1 anchor and <= 1 alias
+    let extra_nodes: Option<usize> = tier.pick(None, Some(6));
+    let quick = tier == Tier::Quick;
 
     // ---- A. exhaustive small documents
-    let mut bases = Vec::new();
+    let mut bases: Vec<(Node, usize, usize)> = Vec::new();
     for n in 1..=max_nodes {
-        bases.extend(treegen::base_trees(n, LEAVES_BASIC));
+        bases.extend(treegen::base_trees(n, LEAVES_BASIC).into_iter().map(|t| (t, 2, 2)));
+    }
+    if let Some(n) = extra_nodes {
+        bases.extend(treegen::base_trees(n, LEAVES_BASIC).into_iter().map(|t| (t, 1, 1)));
     }
     run.count("base_trees", bases.len() as u64);
     par_range(bases.len(), |i| {
         let mut loc = Local::default();
+        let (base, max_an, max_al) = &bases[i];
+        let full = *max_an == 2;
         // the undecorated tree too (alias-free: check_yaml_budget, ratio with no aliases)
-        let mut all = vec![bases[i].clone()];
-        all.extend(decorations(&bases[i]));
+        let mut all = vec![base.clone()];
+        all.extend(decorations(base, *max_an, *max_al));
         for (j, d) in all.iter().enumerate() {
             for flow in [false, true] {
                 let Some(text) = render_doc(&run, d, flow, &ro) else { continue };
                 loc.add(if flow { "cases_flow" } else { "cases_block" });
                 check_input(&run, Entry::Str, &text, &mut loc);
-                if (i + j) % 5 == 0 {
+                // quick: every 5th case also through the reader / every 7th through from_multiple;
+                // thorough: all three entry points for the <= 5-node space
+                if full && (!quick || (i + j) % 5 == 0) {
                     check_input(&run, Entry::Reader, &text, &mut loc);
                 }
-                if (i * 31 + j) % 4099 == 0 {
+                if full && (!quick || (i + j) % 7 == 0) {
+                    check_input(&run, Entry::Multi, &text, &mut loc);
+                }
+                if (i * 31 + j) % 40_009 == 0 {
                     run.sample(|| json!({"text": text}));
                 }
             }
         }
         run.count_map(&loc.c);
     });
-
     run.note(format!("phase A (exhaustive small documents) done at {:.1}s", run.elapsed_s()));
+
+    // ---- A2. exhaustive nested-anchor documents: sequence-only trees, <= 3 anchors x <= 3 aliases over {a, b}
+    // (inner anchor aliased while the outer one is open, aliases inside anchored containers followed by
+    // aliases to those containers, re-defined names)
+    let nested_nodes = tier.pick(6, 7);
+    let mut seq_bases = Vec::new();
+    for n in 2..=nested_nodes {
+        seq_bases.extend(vcore::aliasgen::seq_trees(n));
+    }
+    run.count("nested_family_base_trees", seq_bases.len() as u64);
+    let nested_pool: std::sync::Mutex<Vec<String>> = std::sync::Mutex::new(Vec::new());
+    par_range(seq_bases.len(), |i| {
+        let mut loc = Local::default();
+        let docs = vcore::aliasgen::decorate(&seq_bases[i], 3, 3, &["a", "b"]);
+        for (j, d) in docs.iter().enumerate() {
+            for flow in [false, true] {
+                let Some(text) = render_doc(&run, d, flow, &ro) else { continue };
+                loc.add("nested_family_cases");
+                check_input(&run, Entry::Str, &text, &mut loc);
+                if (i + j) % 3 == 0 {
+                    check_input(&run, Entry::Reader, &text, &mut loc);
+                }
+                if (i + j) % 3 == 1 {
+                    check_input(&run, Entry::Multi, &text, &mut loc);
+                }
+                if !flow && (i * 131 + j) % 97 == 0 {
+                    nested_pool.lock().unwrap().push(text.clone());
+                }
+                if (i * 31 + j) % 100_003 == 0 {
+                    run.sample(|| json!({"text": text, "family": "nested"}));
+                }
+            }
+        }
+        run.count_map(&loc.c);
+    });
+    let mut nested_pool = nested_pool.into_inner().unwrap();
+    nested_pool.sort();
+    run.count("nested_family_documents_kept_for_streams", nested_pool.len() as u64);
+    run.note(format!("phase A2 (exhaustive nested-anchor documents) done at {:.1}s", run.elapsed_s()));
 
     // ---- B. fixed small corpus (shapes the generators reach rarely)
     let corpus: &[&str] = &[
@@ -1168,11 +1288,16 @@ fn main() {
     }
 
     // ---- C. random larger documents
-    let n_random = tier.pick(20_000, 300_000);
+    let n_random = tier.pick(100_000, 1_200_000);
     par_range(n_random, |i| {
         let mut rng = Rng::stream(run.seed, i as u64);
         let mut loc = Local::default();
-        let t = random_decorated(&mut rng);
+        let t = if i % 2 == 0 {
+            random_decorated(&mut rng)
+        } else {
+            let size = rng.range(10, 120);
+            vcore::aliasgen::random_resolvable(&mut rng, size, 7, 12)
+        };
         let flow = rng.chance(1, 3);
         let ro = RenderOpts { indent: *rng.pick(&[1usize, 2, 4]), brk: "\n", compact: rng.bool() };
         if let Some(text) = render_doc(&run, &t, flow, &ro) {
@@ -1206,7 +1331,7 @@ fn main() {
     }
     let n_exh_streams = streams.len();
     run.count("streams_exhaustive", n_exh_streams as u64);
-    let n_rand_streams = tier.pick(3_000, 40_000);
+    let n_rand_streams = tier.pick(20_000, 150_000);
     par_range(n_exh_streams + n_rand_streams, |i| {
         let mut loc = Local::default();
         let mut rng = Rng::stream(run.seed ^ 0x5354_5245_414d, i as u64);
@@ -1216,10 +1341,30 @@ fn main() {
             let len = rng.range(exh_len + 1, 6);
             (0..len)
                 .map(|_| {
-                    if rng.chance(2, 3) {
+                    if rng.chance(1, 2) {
                         pool[rng.below(pool.len())].clone()
+                    } else if rng.chance(1, 2) && !nested_pool.is_empty() {
+                        // a document of the exhaustive nested-anchor family, sometimes failing at the type level
+                        let d = nested_pool[rng.below(nested_pool.len())].clone();
+                        if rng.chance(1, 4) {
+                            // the last plain scalar leaf `x<i>` becomes the poison (same layout)
+                            match d.rfind('x') {
+                                Some(k) => {
+                                    let end = d[k + 1..].find(|c: char| !c.is_ascii_digit()).map(|e| k + 1 + e).unwrap_or(d.len());
+                                    format!("{}{POISON}{}", &d[..k], &d[end..])
+                                }
+                                None => d,
+                            }
+                        } else {
+                            d
+                        }
                     } else {
-                        let mut t = random_decorated(&mut rng);
+                        let mut t = if rng.bool() {
+                            random_decorated(&mut rng)
+                        } else {
+                            let size = rng.range(6, 60);
+                            vcore::aliasgen::random_resolvable(&mut rng, size, 6, 8)
+                        };
                         if rng.chance(1, 4) {
                             poison_random_leaf(&mut rng, &mut t);
                         }
@@ -1262,8 +1407,11 @@ fn main() {
     run.count("budget_errors_wrapped_in_AliasError", WRAPPED.load(std::sync::atomic::Ordering::Relaxed));
     let _ = reftree::norm_tag;
     let scope = format!(
-        "(A) every base tree with <= {max_nodes} nodes over 5 scalar leaves + empty seq/map, undecorated and with every placement of <= 2 anchors (a,a / a,b) x every replacement of <= 2 leaves by aliases whose expansion is defined x merge-key variant, x {{block, flow}}, each under: all limits off, and for each of the 8 counters limit = U and U-1 (events also U-2), and 3-5 ratio settings; (D) every stream of <= {exh_len} documents over a pool of {} documents, each under every per-document threshold budget",
-        pool.len()
+        "(A) every base tree with <= {max_nodes} nodes over 5 scalar leaves + empty seq/map, undecorated and with every placement of <= 2 anchors (a,a / a,b) x every replacement of <= 2 leaves by aliases whose expansion is defined x merge-key variant{}, x {{block, flow}}; (A2) every sequence-only tree with 2..={nested_nodes} nodes (leaves x<i> / []) x every placement of <= 3 anchors x 1..=3 aliases with names drawn independently from {{a, b}} such that every alias resolves, x {{block, flow}}; each input of (A)/(A2) under: all limits off (report = independent count), and for each of the 8 counters limit = U and U-1 (events also U-2) with the hook monitor attached, and 3-5 ratio settings, through from_str ({} the reader and from_multiple entry points); (D) every stream of <= {exh_len} documents over a pool of {} documents ({} of them failing at the type level), each under every per-document threshold budget of every counter",
+        if extra_nodes.is_some() { "; plus every 6-node base tree with <= 1 anchor x <= 1 alias (from_str)" } else { "" },
+        if quick { "a fixed 1/5 resp. 1/7 (A), 1/3 (A2) slice also through" } else { "(A, <= 5 nodes) also through, (A2) a fixed 1/3 slice each through" },
+        pool.len(),
+        pool.iter().filter(|d| d.contains(POISON)).count()
     );
     let fin = Finish::new(
         "a case (input, entry point) is non-trivial when >= 1 counter has usage >= 2 and both the limit=U and limit=U-1 runs executed; a stream is non-trivial when it has >= 2 documents and some counter has per-document usage >= 2 (both its U and U-1 budgets are run); distinct by hash(text, entry) / hash(documents)",
@@ -1271,7 +1419,7 @@ fn main() {
     .exhaustive(scope)
     .assume("raw saphyr-parser event stream is the ground truth; a verdict is given only when the independent count equals the hook trace on pumps by source, replayed events, nodes, depth, scalar bytes, alias pushes and document resets")
     .assume("counted quantities mean what the doc comments of Budget/BudgetReport say; `<<` reached through an alias key or carrying a tag is unspecified")
-    .assume("after the first Err item of read_with_options nothing is specified (the docs say the iterator ends on budget errors; the code tries to resynchronise)")
-    .min_nontrivial(if tier == Tier::Quick { 2_000 } else { 20_000 });
+    .assume("read_with_options: after a deserialization (type-level) error the following documents are specified (documented recovery); after the first budget, alias-limit or syntax error nothing is specified")
+    .min_nontrivial(if tier == Tier::Quick { 50_000 } else { 500_000 });
     run.finish(fin);
 }
